@@ -18,6 +18,7 @@ import (
 	"bufio"
 	"bytes"
 	"encoding/json"
+	"errors"
 	"fmt"
 	"io"
 	"net/http"
@@ -97,16 +98,20 @@ func (m *MatchHTTP) Match(cx *layer4.Connection) (bool, error) {
 
 		// use bufio reader which exactly matches the size of prefetched data,
 		// to not trigger all bytes consumed error
-		bufReader := bufio.NewReaderSize(cx, len(data))
+		// (the request parser reports a header line that is cut off at the end of
+		// the prefetched data as malformed instead of passing on the connection's
+		// request for more data, so remember whether the connection asked for more)
+		src := &prefetchedReader{cx: cx}
+		bufReader := bufio.NewReaderSize(src, len(data))
 		req, err = http.ReadRequest(bufReader)
 		if err != nil {
-			return false, err
+			return false, src.verdict(err, len(data))
 		}
 
 		// check if req is a http2 request made with prior knowledge and if so parse it
 		err = m.handleHttp2WithPriorKnowledge(bufReader, req)
 		if err != nil {
-			return false, err
+			return false, src.verdict(err, len(data))
 		}
 
 		// if the tls handler was used before fill in the TLS field of the request
@@ -129,6 +134,33 @@ func (m *MatchHTTP) Match(cx *layer4.Connection) (bool, error) {
 	// we have a valid HTTP request, so we can drill down further if there are
 	// any more matchers configured
 	return m.matcherSets.AnyMatch(req), nil
+}
+
+// prefetchedReader reads from a connection and remembers whether the
+// connection ran out of prefetched bytes while it was being read.
+type prefetchedReader struct {
+	cx       *layer4.Connection
+	needMore bool
+}
+
+func (r *prefetchedReader) Read(p []byte) (int, error) {
+	n, err := r.cx.Read(p)
+	if errors.Is(err, layer4.ErrConsumedAllPrefetchedBytes) {
+		r.needMore = true
+	}
+	return n, err
+}
+
+// verdict turns a parse error into the request for more data if the parser
+// had seen only a part of the message (buffered bytes of it).
+func (r *prefetchedReader) verdict(err error, buffered int) error {
+	if !r.needMore {
+		return err
+	}
+	if buffered >= layer4.MaxMatchingBytes {
+		return layer4.ErrMatchingBufferFull
+	}
+	return layer4.ErrConsumedAllPrefetchedBytes
 }
 
 // isHttp test if the buffered data looks like HTTP by looking at the first line.
